@@ -1,0 +1,27 @@
+//go:build verif
+// +build verif
+
+package input
+
+import (
+	"github.com/grafana/carbon-relay-ng/cfg"
+	"github.com/streadway/amqp"
+)
+
+type verifC14Closable struct{}
+
+func (verifC14Closable) Close() error { return nil }
+
+// VerifC14MockAMQP returns an AMQP input whose connector is satisfied by an
+// in-memory delivery channel (the connector type and the fields it has to set
+// are unexported). Verification builds only; nothing else uses it.
+func VerifC14MockAMQP(config cfg.Config, dispatcher Dispatcher) (*Amqp, chan<- amqp.Delivery) {
+	delivery := make(chan amqp.Delivery)
+	connect := func(a *Amqp) error {
+		a.channel = verifC14Closable{}
+		a.conn = verifC14Closable{}
+		a.delivery = delivery
+		return nil
+	}
+	return NewAMQP(config, dispatcher, connect), delivery
+}
